@@ -14,6 +14,7 @@ This module also owns the network case format / generator / builder shared with 
 or the compact form of the enumerated space {"small": [[src, tgt, ori, w], ...]} (3 nodes a, b, c).
 """
 import itertools
+import math
 
 from hypothesis import strategies as st
 
@@ -39,6 +40,8 @@ ASSUMPTIONS = [
     "weights are finite floats >= 0; comparisons are exact when every weight is a multiple of 0.5, else 1e-9 relative",
     "cut-offs closer than 1e-9 (relative) to a true distance are used only on exactly representable weights",
     "shortest_distance(s, t, cut=...) for a single pair is not constrained by the property (only the all-pairs table is)",
+    "astar sub-check: A* routing (setRoutingMethod(ROUTING_ALGO_ASTAR)) is judged only where its straight-line heuristic is "
+    "admissible: astar weight <= 1 and every edge weight >= the distance between the edge's end nodes; 1e-9 relative",
 ]
 
 
@@ -105,6 +108,9 @@ def build_network(case):
     if not case.get("pre"):
         for k in range(len(ids)):
             net.addNode(Node(ids[k], ENUCoords(pos[k][0], pos[k][1], 0)))
+    if case.get("astar") is not None:
+        net.setRoutingMethod(Network.ROUTING_ALGO_ASTAR)
+        net.setAStarWeight(case["astar"])
     return net
 
 
@@ -389,6 +395,53 @@ def strat_pairs():
     return graph_cases()
 
 
+# A* routing: the heuristic is astar_wgt x straight-line distance to the target.  It is admissible and consistent
+# (so A* is exact, also with a closed set) iff astar_wgt <= 1 and every weight >= the straight-line distance between
+# the edge's end nodes - the situation of a road network whose weights are lengths.  Only such cases are generated.
+@st.composite
+def astar_cases(draw, geom=False):
+    case = draw(graph_cases(geom=geom, min_nodes=2, max_nodes=10, max_edges=30))
+    for e in case["edges"]:
+        pts = edge_points(case, e)
+        chord = math.dist(pts[0], pts[-1])
+        length = sum(math.dist(a, b) for a, b in zip(pts, pts[1:]))
+        kind = draw(st.sampled_from(["chord", "length", "plus", "times"]))
+        if kind == "chord":
+            w = chord
+        elif kind == "length":
+            w = length
+        elif kind == "plus":
+            w = chord + draw(st.sampled_from([0.25, 0.5, 1.0, 3.0]))
+        else:
+            w = chord * draw(st.sampled_from([1.0, 1.5, 2.0, 4.0]))
+        e["w"] = max(w, chord)
+    case["astar"] = draw(st.sampled_from([0.0, 0.25, 0.5, 1.0, 1.0]))
+    return case
+
+
+def _validate_astar(case):
+    _validate(case)
+    assert 0 <= case["astar"] <= 1
+    for e in case["edges"]:
+        assert e["w"] >= math.dist(case["pos"][e["src"]], case["pos"][e["tgt"]])
+
+
+def body_astar(case):
+    _validate_astar(case)
+    n, arcs, D = model(case)
+    net = build_network(case)
+    check_pairs(case, net, n, D, False)
+    cls, nt = classify(case, n, arcs, D, False)
+    # the heuristic matters only if the straight line misleads: some node nearer to a target than its predecessor on
+    # the shortest walk is
+    cls = [c for c in cls if c != "float-weights"] + ["astar_wgt=%g" % case["astar"]]
+    return {"nt": nt and case["astar"] > 0, "cls": cls}
+
+
+def strat_astar():
+    return astar_cases()
+
+
 def strat_tables():
     return graph_cases(cuts=True)
 
@@ -407,6 +460,9 @@ SUBCHECKS = [
              rule="random multigraphs, all ordered pairs + list form"),
     SubCheck("tables", body_tables, strategy=strat_tables, quick=4500, thorough=160000, qshards=6,
              rule="random multigraphs x cut-offs, all-pairs table and prepared distances"),
+    SubCheck("astar", body_astar, strategy=strat_astar, quick=3000, thorough=100000, qshards=4,
+             rule="A* routing method on multigraphs whose weights are >= the straight-line distance of their end nodes "
+                  "(admissible heuristic, astar weight in {0, .25, .5, 1}): every ordered pair + list form against Floyd-Warshall"),
     SubCheck("small", body_small, enum=enum_small,
              rule="all graphs on 3 nodes with <= 2 (quick) / <= 3 (thorough) edges, weights {0,1,2}", qshards=4),
 ]
